@@ -28,10 +28,13 @@ type Scenario struct {
 	Cfg  netrun.Config
 }
 
+// MkError is raised (as a panic) when the parties of a scenario cannot be constructed.
+type MkError struct{ Err error }
+
 func (sc Scenario) Mk() *netrun.Network {
 	nw, err := netrun.New(sc.Cfg)
 	if err != nil {
-		panic(err)
+		panic(MkError{err})
 	}
 	return nw
 }
@@ -207,8 +210,17 @@ func secretsOf(nw *netrun.Network, p int) map[string][]byte {
 
 // Explore runs the decomposed exploration of one scenario and reports violations to r with the given
 // property-specific key prefix.
-func Explore(r *core.Run, sc Scenario, opt Options) Stats {
-	var st Stats
+func Explore(r *core.Run, sc Scenario, opt Options) (st Stats) {
+	// a party that cannot even be constructed from legal inputs is a finding of the check, not a crash of it
+	defer func() {
+		if x := recover(); x != nil {
+			if me, ok := x.(MkError); ok {
+				r.Violate(sc.Name+"/constructor-error", "the parties of an admissible configuration could not be constructed: "+me.Err.Error(), nil)
+				return
+			}
+			panic(x)
+		}
+	}()
 	sys := explore.NewSysObs(sc.Mk, func(nw *netrun.Network, p int) map[string]string {
 		m := map[string]string{}
 		if opt.C08 {
